@@ -1095,7 +1095,9 @@ META = {
                 'the conditions is decided only on sampled runs (random connected graphs of the named families and option settings + the inputs '
                 'of the 11 shipped hola_* tests), each judged by the extracted verified checker on the exact rational values of the dumped doubles.',
         'design_ref': 'DESIGN.md 5.14'},
-    'level_note': 'Trusted: Coq kernel; extraction (ExtrOcamlBasic) and extract/c14_driver.ml; harness/c14_hola.cpp (reads Node/Edge/SepMatrix '
+    'level_note': 'Trusted: Coq kernel; tools/cpp2v.py + clang JSON AST for the Compass functions (ortho.cpp:52-83, ortho.h:68-128; exact-rational model of '
+                  'binary64 comparisons; validated on every run by the lattice / exhaustive predicate sweep of the compiled functions against the theorem statements; '
+                  'CompassDir / CardinalDir values outside their enumerators are not modelled); extraction (ExtrOcamlBasic) and extract/c14_driver.ml; harness/c14_hola.cpp, harness/c14_compass.cpp (reads Node/Edge/SepMatrix '
                   'state, SepMatrix::m_sparseLookup via #define private public); Python glue (double -> exact Fraction -> hex rationals, case '
                   'generation, known-finding classifiers which never accept a drawing, they only label a rejection). Tolerances: sizes 1e-6, overlap 1e-6, '
                   'axis-parallel 1e-9 (measured library drift 3e-14), route ends padding_per_side + 1e-6, through-node 1e-6, separation 1e-6 '
